@@ -69,6 +69,10 @@ class G:
     def rhs(self, i):
         r = self.r
         c = r.random()
+        if c < 0.06 and getattr(self, 'with_refs', True):
+            # link reference (resolved by a permissive provider installed by pegdiff.make_mm)
+            self.used_features.add('link-ref')
+            return ObjRef(r.choice(self.common))
         if c < 0.35:
             return Ref(r.choice(['ID', 'INT', 'STRING', 'BOOL', 'FLOAT', 'STRICTFLOAT', 'NUMBER', 'BASETYPE']))
         if c < 0.45:
@@ -89,6 +93,12 @@ class G:
         if op == '?=':
             self.nb = getattr(self, 'nb', 0) + 1
             attr = f'b{self.nb}'
+        if isinstance(rhs, ObjRef):
+            # a reference attribute of its own (mixing references and values in one attribute is not meaningful)
+            self.nr = getattr(self, 'nr', 0) + 1
+            attr = f'r{self.nr}'
+            if op == '?=':
+                op = '='
         a = Assign(attr, op, rhs)
         if op in ('+=', '*=') and r.random() < 0.5:
             a.sep = Lit(r.choice([',', ';', '|']))
@@ -241,6 +251,13 @@ class Deriver:
         w = ctx.eff_ws()
         if not w:
             return ''
+        if getattr(self, 'comments', False) and self.r.random() < 0.08:
+            cr = self.g.rule('Comment')
+            if cr is not None:
+                if cr.body.pat.startswith('/\\*'):
+                    return (' ' if ' ' in w else '') + '/* c%d */' % self.r.randint(0, 99) + (' ' if ' ' in w else '')
+                if '\n' in w:
+                    return (' ' if ' ' in w else '') + '// c%d\n' % self.r.randint(0, 99)
         c = self.r.random()
         if c < 0.7:
             return ' ' if ' ' in w else w[0]
